@@ -351,8 +351,11 @@ func (x *Exec) checkRun(rec *StepRecord) {
 			}
 		}
 	case firedOSWrite:
+		// Execute may legitimately succeed after a fault it retried; what it may
+		// not do is report success with a missing or damaged file (F0, decided
+		// below by the file-set and F1-F6 checks of this very run)
 		if success {
-			x.violate("C01", "F0", "silent-io-error", "an injected error on open/write of an output file was swallowed: Execute returned nil", map[string]string{"fired": strings.Join(resp.Fired, ",")})
+			x.Env.Stats.Add("probe/success-after-io-fault", 1)
 		}
 	case !success && allScripted && !firedAny:
 		x.violate(x.Sc.Property, "X0", "unexpected-error", firstLine(resp.ExecErr), map[string]string{"error": firstLine(resp.ExecErr)})
@@ -415,6 +418,9 @@ func (x *Exec) checkRun(rec *StepRecord) {
 				switch {
 				case oc.o.Rendered && !exists:
 					x.violate("C07", "T2", "rendered-file-missing", f, nil)
+					if firedOSWrite {
+						x.violate("C01", "F0", "output-missing-after-swallowed-io-error", f, map[string]string{"fired": strings.Join(resp.Fired, ",")})
+					}
 				case !oc.o.Rendered && oc.o.Ignored:
 					if rec.Pre[f] != rec.Post[f] {
 						x.violate("C07", "T2", "errignore-did-not-keep-previous-file", fmt.Sprintf("%s: %s -> %s", f, short(rec.Pre[f]), short(rec.Post[f])), nil)
@@ -459,27 +465,23 @@ func (x *Exec) checkRun(rec *StepRecord) {
 			}
 			x.Env.Stats.Add("probe/skipped-as-cached", 1)
 			why := ""
+			lineHashes := ParseSumLines(rec.PreSum)[ip]
+			h, hashable := rec.Hload[ip]
 			switch {
 			case !run.Args.All:
 				why = "skipped-without-all"
 			case run.Args.Force:
 				why = "skipped-despite-force"
-			case x.Model.Rec[ip] == nil:
-				why = "skipped-without-valid-record"
-			case !sameFiles(x.Model.Rec[ip], rec.Content[ip]):
+			case !rec.HadSum:
+				why = "skipped-without-sum-file"
+			case len(lineHashes) == 0:
+				why = "skipped-without-entry"
+			case !hashable:
+				why = "skipped-although-directory-unhashable"
+			case !contains(lineHashes, h):
+				why = "skipped-although-hash-not-recorded"
+			case !x.Model.Vouches(ip, lineHashes, rec.Content[ip]):
 				why = "skipped-although-directory-changed"
-			}
-			if why == "" {
-				h, ok := rec.Hload[ip]
-				found := false
-				for _, lh := range ParseSumLines(rec.PreSum)[ip] {
-					if ok && lh == h {
-						found = true
-					}
-				}
-				if !found {
-					why = "skipped-although-hash-not-recorded"
-				}
 			}
 			if why != "" {
 				x.violate("C08", "S1", why, fmt.Sprintf("package %s was not regenerated", ip), map[string]string{"unhashable": fmt.Sprint(rec.Hload[ip] == "")})
@@ -516,11 +518,6 @@ func (x *Exec) checkRun(rec *StepRecord) {
 		// ---- S2 / S4: the file written by a successful All run
 		if run.Args.All {
 			x.checkSum(rec)
-			var local []string
-			for _, pi := range rec.Local {
-				local = append(local, m.ImportPath(pi))
-			}
-			x.Model.Commit(local, rec.Content, rec.Hload)
 		}
 	}
 	x.Model.AfterExternal(x.Root)
@@ -778,7 +775,8 @@ func (x *Exec) checkCalls(rec *StepRecord, pi int, g *proto.GenScript, o genOutc
 				firstDefer = e.Seq
 			}
 			lastDefer = e.Seq
-		case e.Kind == "os.open" && e.Path == file && e.Exec >= 0 && e.N&(os.O_WRONLY|os.O_RDWR) != 0 && openAt < 0:
+		case e.Kind == "os.open" && strings.HasPrefix(e.Path, file) && e.Exec >= 0 && e.N&(os.O_WRONLY|os.O_RDWR) != 0 && openAt < 0:
+			// the destination itself or a temporary file next to it (<file>.tmp ...)
 			openAt = e.Seq
 		}
 	}
